@@ -47,16 +47,17 @@ def repo_head():
 _built = {}
 
 
-def build_harness(features="std", target="target"):
+def build_harness(features="std", target="target", dev=False):
     """(Re)build the harness against /repo's current working tree; returns the binary path.
     A compile failure of the crate under test is a tool error here (the checks of C18 look
     at build outcomes on their own)."""
-    key = (features, target)
+    key = (features, target, dev)
     if key in _built:
         return _built[key]
     lock_src = os.path.join(REPO, "Cargo.lock")
     env = dict(os.environ, CARGO_NET_OFFLINE="true")
-    cmd = ["cargo", "build", "--release", "--offline", "--no-default-features", "--features", features,
+    # dev=True: the unoptimised build (what `cargo test` / `cargo run` users execute: no tail-call or inlining rescue for deep recursion)
+    cmd = ["cargo", "build"] + ([] if dev else ["--release"]) + ["--offline", "--no-default-features", "--features", features,
            "--target-dir", target]
     t0 = time.time()
     p = subprocess.run(cmd, cwd=HARNESS, env=env, capture_output=True, text=True)
@@ -68,7 +69,7 @@ def build_harness(features="std", target="target"):
         errs = "\n".join(l for l in p.stderr.splitlines() if l.startswith("error") or "-->" in l)[:4000]
         raise ToolError("cargo build of the harness failed:\n" + errs)
     log("harness built (%s) in %.1fs" % (features, time.time() - t0))
-    b = os.path.join(HARNESS, target, "release", "tlsverif")
+    b = os.path.join(HARNESS, target, "debug" if dev else "release", "tlsverif")
     _built[key] = b
     return b
 
@@ -389,13 +390,14 @@ class Report:
         return 1 if self.violations else 0
 
 
-def _run_cases_once(binary, d, cases, name):
+def _run_cases_once(binary, d, cases, name, stack_kb=None):
     """One harness process over `cases`; returns (status, outs): status 0 ok, 3 watchdog, "crash:<n>" when the process was killed by a signal
     (the code under test exhausted the stack or aborted: nothing in-process can report that)."""
     cin = os.path.join(d, name + ".in.ndjson")
     cout = os.path.join(d, name + ".out.ndjson")
     write_ndjson(cin, [{"id": c["id"], "fn": c["fn"], "a": c["a"], "input": c["input"]} for c in cases])
-    p = subprocess.run([binary, "run", cin, cout], capture_output=True, text=True, timeout=3600)
+    env = dict(os.environ, VERIF_STACK_KB=str(stack_kb)) if stack_kb else None
+    p = subprocess.run([binary, "run", cin, cout], capture_output=True, text=True, timeout=3600, env=env)
     if p.returncode < 0 or p.returncode in (134, 139):
         return "crash:%d" % p.returncode, {}
     if p.returncode not in (0, 3):
@@ -407,24 +409,24 @@ def _run_cases_once(binary, d, cases, name):
     return p.returncode, outs
 
 
-def replay_cases(binary, d, cases, name="run"):
+def replay_cases(binary, d, cases, name="run", stack_kb=None):
     """Send case lines through the real code; returns {id: output line}.  A process killed by a signal is data too: the cases that
     kill it are isolated by bisection (at most 3) and reported under "__crash__"; the others are run without them."""
     cases = list(cases)
-    status, outs = _run_cases_once(binary, d, cases, name)
+    status, outs = _run_cases_once(binary, d, cases, name, stack_kb)
     crashers = []
     while isinstance(status, str) and len(crashers) < 3:
         lo = cases
         while len(lo) > 1:
             half = lo[:len(lo) // 2]
-            st, _ = _run_cases_once(binary, d, half, name + ".bisect")
+            st, _ = _run_cases_once(binary, d, half, name + ".bisect", stack_kb)
             lo = half if isinstance(st, str) else lo[len(lo) // 2:]
-        st, _ = _run_cases_once(binary, d, lo, name + ".bisect")
+        st, _ = _run_cases_once(binary, d, lo, name + ".bisect", stack_kb)
         if not isinstance(st, str):
             raise ToolError("the harness was killed by a signal (%s) but no single case reproduces it" % status)
         crashers.append(dict(lo[0], signal=st))
         cases = [c for c in cases if c["id"] != lo[0]["id"]]
-        status, outs = _run_cases_once(binary, d, cases, name)
+        status, outs = _run_cases_once(binary, d, cases, name, stack_kb)
     if isinstance(status, str):
         raise ToolError("more than 3 cases kill the harness process (%s)" % status)
     if crashers:
